@@ -63,6 +63,7 @@ PROPS["C14"] = {
         Leg("huge", "c14", "^TestHuge$", checks=(3000, 60000), shards=(1, 4), tests=["huge"]),
         Leg("parallel-race", "c14", "^TestParallel$", engine="sched", race=True, checks=(500, 8000), shards=(2, 8), tests=["parallel"], replay_attempts=5),
         Leg("first-use-race", "c14", "^TestParallel$", engine="sched", race=True, checks=(2, 2), shards=(12, 64), env={"VERIF_FIRST_USE": "1"}, tests=["parallel"], replay_attempts=5),
+        Leg("neighbour-writer-race", "c14", "^TestNeighbourWriter$", engine="sched", race=True, checks=(600, 12000), shards=(2, 8), tests=["neighbour-writer"], replay_attempts=5),
         Leg("grid-386", "c14", "^TestGrid$", engine="enumerate", rapid=False, goarch="386", shards=(1, 1), tests=["grid"]),
         Leg("random-386", "c14", "^TestRandom$", goarch="386", checks=(50000, 1000000), shards=(1, 8), tests=["random"]),
         Leg("fuzz-bits", "c14", "", engine="native-fuzz", fuzz="FuzzBits", fuzztime=120, tiers=("thorough",)),
@@ -319,6 +320,7 @@ PROPS["C17"] = {
     "legs": [
         Leg("history", "c17", "^TestHistory$", checks=(2000, 150000), shards=(6, 18), tests=["history"], shard_env=[{"TZ": "UTC"}, {"TZ": "Europe/London"}, {"TZ": "America/New_York"}, {"TZ": "Asia/Kolkata"}, {"TZ": "Australia/Lord_Howe"}, {"TZ": "Europe/Moscow"}]),
         Leg("file-handler-reuse", "c17", "^TestFileHandlerReuse$", checks=(800, 20000), shards=(2, 8), tests=["file-handler-reuse"]),
+        Leg("appcore", "c17", "^TestAppCore$", checks=(150, 4000), shards=(4, 16), tests=["appcore"]),
         Leg("display-program", "c17", "^TestDisplayProgram$", engine="process", app=["displayrtcm3"], checks=(60, 2000), shards=(8, 16), tests=["display-program"]),
         Leg("parallel", "c17", "^TestParallel$", engine="sched", checks=(400, 8000), shards=(2, 16), tests=["parallel"], replay_attempts=5),
         Leg("parallel-race", "c17", "^TestParallel$", engine="sched", race=True, checks=(100, 2000), shards=(2, 8), tests=["parallel"], replay_attempts=5),
@@ -473,6 +475,7 @@ PROPS["C16"] = {
     "min_evals": {"quick": 300, "thorough": 8000},
     "legs": [
         Leg("run", "c16", "^TestRun$", engine="process", app=["rtcmlogger"], checks=(30, 4000), shards=(16, 16), tests=["run"], replay_attempts=20, shard_env=[{"TZ": "UTC"}, {"TZ": "Europe/London"}, {"TZ": "America/New_York"}, {"TZ": "Asia/Kolkata"}, {"TZ": "Australia/Lord_Howe"}, {"TZ": "Europe/Moscow"}]),
+        Leg("quiet-line", "c16", "^TestQuietLine$", engine="process", app=["rtcmlogger"], checks=(1, 1), shards=(2, 3), tests=["quiet-line"], replay_attempts=2),
         Leg("midnight", "c16", "^TestMidnight$", engine="process", app=["rtcmlogger"], checks=(1, 3), shards=(2, 4), tests=["midnight"], replay_attempts=2),
         Leg("record-stall", "c16b", "^TestRecordStall$", engine="sched", checks=(2, 6), shards=(3, 6), tests=["record-stall"], optional_build=True, replay_attempts=2),
         Leg("run-instrumented", "c16", "^TestRun$", engine="process+sched", app=["rtcmlogger"], instrument=["apps/rtcmlogger/main.go"],
